@@ -60,6 +60,17 @@ TRUSTED = [
     "exercised only through the schedules (fresh interpreters, other hash seed, preceding runs, reused objects)",
 ]
 
+# explicit sampler options (valid SciPy arguments) - "other runs" use them while the run under test relies on the
+# defaults and vice versa: options of one run must never leak into another
+SAMPLER_OPTIONS = {
+    "norm": [{"scale": 0.5}, {"loc": 0.25}],
+    "uniform": [{"loc": -0.5, "scale": 1.0}, {"scale": 1.0}],
+    "truncnorm": [{"a": -0.5, "b": 0.5}, {"b": 0.25}],
+    # (scramble=False would make sobol/halton deterministic sequences that legitimately ignore the seed)
+    "sobol": [{"bits": 28}, {"bits": 24}],
+    "halton": [{"scramble": True}, {"scramble": True}],
+    "lhs": [{"scramble": False}, {"strength": 1}],
+}
 METHODS = ["slsqp", "l-bfgs-b", "nelder-mead", "differential_evolution"]
 SAMPLERS = ["norm", "uniform", "truncnorm", "sobol", "halton", "lhs"]
 HARNESS_DIR = os.path.dirname(os.path.dirname(os.path.abspath(__file__)))
@@ -73,6 +84,9 @@ def _rand_spec(rng, k):
     nsam = rng.choice([1, 1, 2])
     samplers = [{"method": SAMPLERS[(k + i * 3) % 6] if k < 12 else rng.choice(SAMPLERS), "shared": rng.random() < 0.4}
                 for i in range(nsam)]
+    for i, smp in enumerate(samplers):
+        if rng.random() < 0.25:
+            smp["options"] = SAMPLER_OPTIONS[smp["method"]][(k + i) % 2]
     idx = None
     if nsam == 2:
         idx = [rng.randrange(2) for _ in range(nvar)]
@@ -113,7 +127,11 @@ def _variant(spec, i):
         v["constraint"] = False
         v["max_functions"] = 12 if v["method"] == "differential_evolution" else 5
     else:
-        v["samplers"] = spec["samplers"]      # same samplers, same method, other seed: shares every cached object
+        # same samplers and methods, other seed: shares every cached object.  The other run gives explicit options
+        # where the run under test relies on the defaults (and the other way round)
+        v["samplers"] = [({"method": x["method"], "shared": x["shared"]} if "options" in x else
+                          {"method": x["method"], "shared": x["shared"], "options": SAMPLER_OPTIONS[x["method"]][(i // 2) % 2]})
+                         for x in spec["samplers"]]
     return v
 
 
@@ -123,6 +141,9 @@ def _schedules(tier, rng):
         {"name": "after-others-new-objects", "reuse": "fresh", "others": 2, "pre": [], "between": [], "inside": []},
         {"name": "after-others-reused-manager", "reuse": "manager", "others": 2, "pre": [], "between": [], "inside": []},
         {"name": "after-others-reused-context", "reuse": "context", "others": 2, "pre": [], "between": [], "inside": []},
+        # the SAME validated EnOptConfig object (and context) is run once before: a second run of one configuration
+        # object must not continue any state of the first
+        {"name": "same-config-object-run-again", "reuse": "config", "others": 1, "pre": [], "between": [], "inside": []},
         {"name": "reseed-before", "reuse": "fresh", "others": 0, "pre": [rng.randrange(1000), -3], "between": [], "inside": []},
         {"name": "reseed-between-and-inside", "reuse": "fresh", "others": 0, "pre": [rng.randrange(1000)],
          "between": [rng.randrange(1000), -2], "inside": [-1, rng.randrange(1000), -5]},
@@ -313,7 +334,8 @@ def _config(spec):
         "realizations": {"weights": [1.0 + 0.5 * r for r in range(nreal)]},
         "gradient": {"number_of_perturbations": spec["npert"], "seed": tuple(spec["seed"]) if isinstance(spec["seed"], list) else spec["seed"],
                      "perturbation_magnitudes": 0.0625, "merge_realizations": bool(spec["merge"])},
-        "samplers": [{"method": s["method"], "shared": s["shared"]} for s in spec["samplers"]],
+        "samplers": [{"method": s["method"], "shared": s["shared"], **({"options": s["options"]} if "options" in s else {})}
+                     for s in spec["samplers"]],
         "objectives": {"weights": [1.0, 0.5]},
     }
     if spec["mask"] is not None:
@@ -401,7 +423,7 @@ class _Run:
             self.micro += [[], []]
             self.events += 1
 
-    def execute(self, session):
+    def execute(self, session, config=None):
         import warnings
         from ropt.config.enopt import EnOptConfig
         from ropt.plan import Plan
@@ -413,7 +435,7 @@ class _Run:
             self.pending += mon.do_foreign(self.sched["pre"], 0)
             plan = Plan(session.context)
             step = plan.add_step("optimizer")
-            code = plan.run_step(step, config=EnOptConfig.model_validate(_config(self.spec)))
+            code = plan.run_step(step, config=EnOptConfig.model_validate(_config(self.spec)) if config is None else config)
         finally:
             touches = mon.stop()
             session.run = None
@@ -429,6 +451,14 @@ def _run_schedule(spec, sched, mon):
     session = _Session()
     manager = session.manager
     quiet = dict(_QUIET, pre=sched["pre"][:1])
+    if sched["reuse"] == "config":
+        import warnings
+        from ropt.config.enopt import EnOptConfig
+        warnings.simplefilter("ignore")
+        shared = EnOptConfig.model_validate(_config(spec))
+        for i in range(sched["others"]):
+            _Run(spec, quiet, mon).execute(session, shared)
+        return _Run(spec, sched, mon).execute(session, shared)
     for i in range(sched["others"]):
         if sched["reuse"] == "fresh":
             session = _Session()
@@ -553,7 +583,7 @@ def nontrivial(case, obs):
 
 def features(case, obs):
     s = case["spec"]
-    return {"method": s["method"], "samplers": "+".join(x["method"] + ("*" if x["shared"] else "") for x in s["samplers"]),
+    return {"method": s["method"], "samplers": "+".join(x["method"] + ("*" if x["shared"] else "") + ("{opt}" if "options" in x else "") for x in s["samplers"]),
             "perturbed_calls": min(3, sum(1 for e in obs["ref"]["entries"] if e[0] == "C" and e[1])),
             "calls": min(12, sum(1 for e in obs["ref"]["entries"] if e[0] == "C")),
             "filter": s["filter"], "estimator": s["estimator"], "mask": s["mask"] is not None,
